@@ -270,6 +270,37 @@ def mk_int_model(maxlen):
   return o_int_model
 
 
+def mk_serials_irrelevant(name, args=()):
+    def body(ctx):
+        """atom serial numbers never influence predictions: the whole pipeline on a structure whose serials are
+        replaced (descending, all equal, shuffled, in the hybrid-36 range, shifted by a symbolic offset) gives
+        the results of the structure as numbered in the file"""
+        import random
+        from . import micro as M
+        scheme = ctx.choice('numbering', ['descending', 'all-equal', 'shuffled-1', 'shuffled-2', 'hybrid36-range', 'interleaved'])
+        off = ctx.int('offset', 0, 90000)
+        base = M.run(M.text(name), args=list(args))
+        counter = [0]
+        n_atoms = len([l for l in M.text(name).split('\n') if l[:6] in ('ATOM  ', 'HETATM')])
+        perm = list(range(n_atoms))
+        if scheme.startswith('shuffled'):
+            random.Random(int(scheme[-1])).shuffle(perm)
+
+        def tr(a):
+            i = counter[0]
+            counter[0] += 1
+            v = {'descending': n_atoms - i, 'all-equal': 7, 'hybrid36-range': 100000 + 3 * (n_atoms - i), 'interleaved': (i % 2) * 1000 + i // 2}.get(scheme)
+            if v is None:
+                v = perm[i] + 1
+            a.numb = v + off
+        other = M.run(M.text(name), args=list(args), transform=tr)
+        M.compare_heavy(ctx, 'serials', base, other)
+        M.compare_results(ctx, 'serials', base, other)
+        gb, go = M.groups(base), M.groups(other)
+        ctx.claim('same-group-types', sorted(gb) == sorted(go), detail='%r vs %r' % (sorted(gb), sorted(go)))
+    return body
+
+
 def obligations(tier):
     code = ['propka/hybrid36.py:decode']
     obs = [Obligation('O0-int-model-validation', mk_int_model(2 if tier == 'quick' else 3), code=['symx/sstr.py:int_parse_model (trusted model of int())'],
@@ -282,6 +313,12 @@ def obligations(tier):
                               claim_doc='decode(standard encoding of v) == v', max_paths=2000))
     obs.append(Obligation('O1-monotone', o_monotone, code=code, bounds='two values in the full range of widths 2 and 3',
                           claim_doc='v1 < v2 => decode(enc v1) < decode(enc v2)', max_paths=4000))
+    for name in (['lig_MTX', 'lig_MTX_B', 'lig_KNI', 'pair_GLU_ARG_TYR'] if tier == 'quick' else ['lig_MTX', 'lig_MTX_B', 'lig_KNI', 'pair_GLU_ARG_TYR', 'pep8', 'tri_HIS', 'tri_TRP', 'pair_CYS_CYS_bridge']):
+        obs.append(Obligation('O3-serials-never-influence[%s]' % name, mk_serials_irrelevant(name),
+                              code=['propka/atom.py:Atom.set_properties (numb)', 'propka/run.py:single (whole pipeline: bonding, ligand typing, ring search, groups, pKa)',
+                                    'propka/conformation_container.py:ConformationContainer.sort_atoms'],
+                              bounds='micro-structure %s with its serial numbers replaced by 6 numbering schemes plus a symbolic offset in [0, 90000]' % name,
+                              claim_doc='bonds, groups (incl. ligand group types), pKa values and determinants identical to the run on the file as numbered', max_paths=5000))
     maxlen = 3 if tier == 'quick' else 5
     for L in range(0, maxlen + 1):
         obs.append(Obligation('O2-reject-len%d' % L, mk_reject(L), code=code,
@@ -296,5 +333,5 @@ MANIFEST_ENTRY = {
                    'chosen to contain every class the code distinguishes plus "_", "+", "." and a non-ASCII decimal digit); '
                    'int() is a trusted model validated against CPython each run. Round trip: the value is a symbolic integer over the '
                    'full range of each width 1-5 and the standard encoder is arithmetic over it. Rejection: lengths 0-3 quick, 0-5 thorough. '
-                   'The statement\'s last sentence (serials never influence predictions) is decided under C07.'),
+                   'O3: the whole pipeline on ligand / peptide micro-structures whose serials are renumbered by 6 schemes plus a symbolic offset (serial columns of a single record: C07-O2).'),
 }
